@@ -12,7 +12,8 @@
    parallel runs and for aggregation, whose group order is unspecified), that no mode failed and that no spill
    file is left.  Tables too large to evaluate here ("big": around the 1024-row morsel and 2048-row chunk
    boundaries) are checked for agreement of all modes with the first one.
-   "merge" cases check the parallel merge helpers against the same definitions on a partitioned table. *)
+   "merge" cases check the parallel merge helpers against the same definitions on a partitioned table.
+   "join" cases check the hash join and the nested-loop join, under every chunking of their inputs, against JoinDef. *)
 EXTENDS Naturals, Integers, Sequences, FiniteSets, TLC, SequencesExt, Json, IOUtils
 Cases == ndJsonDeserialize(IOEnv.TRACE)
 VARIABLE l
@@ -119,7 +120,38 @@ MergeParts(c) ==
                           /\ \A i \in DOMAIN m : m[i][1] < m[i][2] /\ m[i][2] - m[i][1] <= c.morsels.size
                           /\ \A i \in 1..(Len(m) - 1) : m[i][2] = m[i + 1][1]>> >>
 MergeFailing(c) == IF c.panic THEN {"panic"} ELSE LET P == MergeParts(c) IN {P[i][1] : i \in {j \in DOMAIN P : ~P[j][2]}}
-Failing(c) == IF c.k = "pipeline" THEN PipelineFailing(c) ELSE MergeFailing(c)
+\* ---------------------------------------------------------------- joins
+\* A "join" case: tables c.L and c.R (rows <<key, value, unique id>>; ids 1..), a join type and, per run (one operator
+\* with one chunking of its two inputs), the result as a list of codes lid * 10000 + rid (0 for the NULL-extended side)
+\* and the flag `cols_ok` (every output cell is the cell of the source row the code names).  The definition: rows pair
+\* up when their keys are equal and not NULL.  Cases whose tables contain NULL keys (c.nullkeys) are judged for
+\* agreement between the chunkings of each operator only (the two operators treat NULL keys differently in outer joins),
+\* and so are the cases whose output exceeds one 2048-row chunk (c.big: too many pairs to enumerate here).
+Code(li, ri) == li * 10000 + ri
+JPairs(c) == {<<i, j>> \in (DOMAIN c.L) \X (DOMAIN c.R) : c.L[i][1] # NULL /\ c.L[i][1] = c.R[j][1]}
+JoinDef(c) ==
+  LET P == JPairs(c)
+      inner == {Code(c.L[p[1]][3], c.R[p[2]][3]) : p \in P}
+      lun == {Code(c.L[i][3], 0) : i \in {i \in DOMAIN c.L : ~\E p \in P : p[1] = i}}
+      run_ == {Code(0, c.R[j][3]) : j \in {j \in DOMAIN c.R : ~\E p \in P : p[2] = j}}
+  IN CASE c.type = "inner" -> inner
+       [] c.type = "left" -> inner \cup lun
+       [] c.type = "right" -> inner \cup run_
+       [] c.type = "full" -> inner \cup lun \cup run_
+       [] c.type = "cross" -> {Code(c.L[i][3], c.R[j][3]) : i \in DOMAIN c.L, j \in DOMAIN c.R}
+       [] c.type = "semi" -> {Code(c.L[p[1]][3], 0) : p \in P}
+       [] c.type = "anti" -> lun
+JoinFailing(c) ==
+  IF c.panic THEN {"panic"}
+  ELSE UNION { LET r == c.runs[i]
+                   first == CHOOSE j \in DOMAIN c.runs : c.runs[j].op = r.op /\ \A k \in DOMAIN c.runs : c.runs[k].op = r.op => j <= k IN
+               IF r.err THEN {r.name}
+               ELSE IF ~r.cols_ok THEN {r.name}
+               \* each pair once: the codes are distinct, so set equality plus length is bag equality
+               ELSE IF ~c.nullkeys /\ ~c.big /\ ~(Rng(r.codes) = JoinDef(c) /\ Len(r.codes) = Cardinality(JoinDef(c))) THEN {r.name}
+               ELSE IF r.codes # c.runs[first].codes THEN {r.name}      \* codes are recorded sorted
+               ELSE {} : i \in DOMAIN c.runs }
+Failing(c) == IF c.k = "pipeline" THEN PipelineFailing(c) ELSE IF c.k = "join" THEN JoinFailing(c) ELSE MergeFailing(c)
 Init == l = 1
 Step == /\ l <= Len(Cases)
         /\ (LET f == Failing(Cases[l]) IN IF f = {} THEN TRUE ELSE PrintT(<<"MISMATCH", l, Cases[l].cid, f>>))
